@@ -102,6 +102,12 @@ Definition oracle (ops : list dop) (obs : list (list (list N))) : bool :=
        else true) &&
       (if negb hasrsrc && negb preview
        then bytes_eqb (a 0 ob) (be32 (len rest + 56 + (if flag (a 5 args) then len (a 6 args) else 74 + len (a 0 args))))
+       else true) &&
+      (* a stored resource fork follows the data whole: behind its 16-byte fork header on a fresh download, bare on a
+         resumed one (the data offset does not apply to it) *)
+      (if hasrsrc && negb preview
+       then bytes_match (if resuming then a 8 args
+                         else [77; 65; 67; 82] ++ repeat 0 8 ++ be32 (len (a 8 args)) ++ a 8 args) (a 4 ob)
        else true)
   | _, _ => oracle_up [] None ops obs
   end.
